@@ -94,6 +94,10 @@ func splitServerName(serverName ServerName) (string, int) {
 	}
 
 	portStr := nameStr[lastColon+1:]
+	if len(portStr) > 5 {
+		// a port is one to five digits: this is not one (possibly an ipv6 host)
+		return nameStr, -1
+	}
 	port, err := strconv.ParseUint(portStr, 10, 16)
 	if err != nil {
 		// invalid port (possibly an ipv6 host)
